@@ -17,7 +17,9 @@ RULE = ('cases = generated graphs of 1-12 persistent nodes (Node, PersistentMapp
         'second connection loads an isomorphic graph, one object per oid, (2) the stored records are exactly the nodes '
         'reachable from the root or explicitly added, (3) no record contains another node\'s unique marker, (4) '
         'referencesf(record) and get_refs(record) equal the strong same-database references the generator placed, without '
-        'importing classes, (5) instances of missing classes load as broken objects with the stored state; evaluations = '
+        'importing classes, (5) instances of missing classes load as broken objects with the stored state, (6) exportFile of a '
+        'generated node whose sub-graph has ordinary references only, importFile into the same database: the copy is '
+        'isomorphic, consists of exactly one new record per exported object, no dangling reference; evaluations = '
         'graphs; non-trivial = >= 3 nodes with sharing or a cycle and >= 1 reference inside a nested plain container; '
         'distinct by case hash')
 ASSUMPTIONS = ['a weak reference to a new object causes it to be stored (documented in ObjectWriter.persistent_id)',
@@ -49,7 +51,7 @@ def strategy(tier):
         oids = draw(st.lists(st.one_of(st.sampled_from(OID_PATTERNS).map(lambda b: list(b)),
                                        st.lists(st.integers(0, 255), min_size=8, max_size=8).filter(lambda l: l[0] < 255)),
                              max_size=n, unique_by=lambda l: tuple(l)))
-        return {'nodes': nodes, 'oids': oids, 'xkinds': draw(st.lists(st.sampled_from(['N', 'A']), min_size=2, max_size=2))}
+        return {'nodes': nodes, 'oids': oids, 'export': draw(st.integers(0, 11)), 'xkinds': draw(st.lists(st.sampled_from(['N', 'A']), min_size=2, max_size=2))}
     return graph()
 
 
@@ -317,6 +319,8 @@ def execute(case):
         finally:
             tm_b.abort()
             cb.close()
+        if not out.failures:
+            export_import(case, conn, tm, db1, spec, objs, strong, expected, oid_of, out, features)
     finally:
         sys.modules.pop(MISSING_MOD, None)
         try:
@@ -326,6 +330,103 @@ def execute(case):
         except Exception:
             pass
     return finish(out, features)
+
+
+def export_import(case, conn, tm, db1, spec, objs, strong, expected, oid_of, out, features):
+    """(6) export of a subgraph and import as a copy: the copy is isomorphic, made of new objects only,
+    one record per exported object.  Domain: subgraphs of ordinary references (ExportImport documents that
+    it does not handle weak references; its reference rewriting has no cross-database form)."""
+    import io
+    import transaction
+    from ZODB.POSException import POSKeyError
+    clean = {i for i in expected if all(t == 's' for (_, _, t) in spec[i]['edges'])}
+
+    def closure(i):
+        c, todo = set(), [i]
+        while todo:
+            u = todo.pop()
+            if u not in c:
+                c.add(u)
+                todo.extend(strong[u])
+        return c
+    starts = [i for i in sorted(expected) if closure(i) <= clean]
+    if not starts:
+        features.add('export-none-eligible')
+        return
+    back = [i for i in starts if any(i in strong[u] for u in closure(i))]
+    if back and case.get('export', 0) % 2:
+        starts = back          # a start that its own sub-graph refers back to
+    start = starts[case.get('export', 0) // 2 % len(starts)]
+    sub = closure(start)
+    f = io.BytesIO()
+    conn.exportFile(oid_of[start], f)
+    f.seek(0)
+    before = set()
+    for t in db1.storage.iterator():
+        for r in t:
+            before.add(r.oid)
+    imp = conn.importFile(f)
+    conn.root()['imported'] = imp
+    tm.commit()
+    new = set()
+    for t in db1.storage.iterator():
+        for r in t:
+            if r.oid not in before:
+                new.add(r.oid)
+    features.add('export-import')
+    if any(start in strong[u] for u in sub):
+        features.add('export-reference-back-to-start')
+    if len(new) != len(sub):
+        out.fail((PROPERTY, 'export-import', 'record-count'),
+                 'export of node %d covers %d objects, the import stored %d new records' % (start, len(sub), len(new)))
+        return
+    tm_c = transaction.TransactionManager()
+    cc = db1.open(tm_c)
+    try:
+        seen, oids = {}, {}
+
+        def visit(o):
+            oid = o._p_oid
+            if cc.get(oid) is not o:
+                raise AssertionError('two objects for oid %r in one connection' % oid)
+            p = payload_of(o)
+            mark = p['mark']
+            if mark not in seen:
+                seen[mark] = None
+                oids[mark] = oid
+                seen[mark] = canon(p['items'], visit)
+            elif oids[mark] != oid:
+                raise AssertionError('the copy of node %s exists twice (oids %r and %r)' % (mark, oids[mark], oid))
+            return mark
+
+        def visit_orig(o):
+            return payload_of(o)['mark']
+        try:
+            got_start = visit(cc.root()['imported'])
+        except POSKeyError as e:
+            out.fail((PROPERTY, 'export-import', 'dangling-reference'),
+                     'walking the imported copy of node %d raised POSKeyError(%s)' % (start, e))
+            return
+        except AssertionError as e:
+            out.fail((PROPERTY, 'export-import', 'identity'), str(e))
+            return
+        if got_start != 'MARK%03d' % start or set(seen) != {'MARK%03d' % i for i in sub}:
+            out.fail((PROPERTY, 'export-import', 'wrong-objects'),
+                     'import of the export of node %d: start %s, objects %r ; expected %r' % (
+                         start, got_start, sorted(seen), sorted('MARK%03d' % i for i in sub)))
+            return
+        for i in sorted(sub):
+            exp = canon(payload_of(objs[i])['items'], visit_orig)
+            if seen['MARK%03d' % i] != exp:
+                out.fail((PROPERTY, 'export-import', 'graph-differs'),
+                         'imported copy of node %d is %r ; exported graph has %r' % (i, seen['MARK%03d' % i], exp))
+                return
+        if set(oids.values()) != new or (set(oids.values()) & set(oid_of.values())):
+            out.fail((PROPERTY, 'export-import', 'oids'),
+                     'the copy uses oids %r ; new records %r ; originals %r' % (sorted(oids.values()), sorted(new), sorted(oid_of.values())))
+    finally:
+        tm_c.abort()
+        cc.close()
 
 
 def has_cycle(strong, nodes):
@@ -353,4 +454,4 @@ def finish(out, features):
 LEVEL_TEXT = ('Generated graphs are stored and re-loaded; isomorphism, exact stored-record set, marker containment and the result '
               'of referencesf/get_refs on every record are checked against the generator\'s own bookkeeping of where it put '
               'which kind of reference.')
-LEVEL_NOTE = 'Trusted: generator bookkeeping of edges; MappingStorage iterator as the record listing. ExportImport round-trips are covered in C20 only.'
+LEVEL_NOTE = 'Trusted: generator bookkeeping of edges; MappingStorage iterator as the record listing. ExportImport: sub-graphs with weak or cross-database references are outside its documented domain and are not exported.'
